@@ -63,6 +63,16 @@ pub struct Env { pub w: World, pub rk: RelinKeys, pub gk: GaloisKeys, pub ksk: K
 pub struct Operands { pub a: Ciphertext, pub b: Ciphertext, pub c: Ciphertext, pub plain: Plaintext, pub target: ParmsID, pub elt: usize, pub steps: isize, pub garbage: Ciphertext,
     pub seeded_keys: bool, pub foreign_keys: bool }
 
+/// a plaintext destination that was used before: other length, scrambled words, another scale
+fn used_plain(p: &Plaintext) -> Plaintext {
+    let mut d = p.clone();
+    let len = d.data().len();
+    if !d.is_ntt_form() { d.resize(len + 5); } // (an NTT-form plaintext cannot be resized through the public API)
+    for (i, x) in d.data_mut().iter_mut().enumerate() { *x = x.wrapping_mul(3).wrapping_add(11 + i as u64); }
+    d.set_scale(3.25);
+    d
+}
+
 /// execute one entry point through one API form; panics propagate to the caller's `catch`
 pub fn run_form(env: &Env, ep: Ep, form: FormK, o: &Operands) -> Snap {
     let ev = &env.w.evaluator;
@@ -81,7 +91,7 @@ pub fn run_form(env: &Env, ep: Ep, form: FormK, o: &Operands) -> Snap {
     macro_rules! pt3 {
         ($inpl:expr, $dest:expr, $new:expr) => { match form {
             FormK::Inplace => { let mut x = o.plain.clone(); $inpl(&mut x); Snap::Pt(snap_pt(&x)) }
-            FormK::Dest => { let mut d = Plaintext::new(); $dest(&mut d); Snap::Pt(snap_pt(&d)) }
+            FormK::Dest => { let mut d = used_plain(&o.plain); $dest(&mut d); Snap::Pt(snap_pt(&d)) }
             FormK::New => Snap::Pt(snap_pt(&$new())),
         } };
     }
@@ -327,7 +337,7 @@ pub fn def() -> PropertyDef {
     PropertyDef {
         id: "C06",
         level: "exploration",
-        rule: "operand states reached by random build sequences (multiply, square, relinearize, mod switch, rescale, representation changes, plaintext products) in BFV, BGV and CKKS; for each of 26 evaluator entry points the in-place, destination (pre-filled with an unrelated ciphertext) and value-returning forms are executed on the same operands: all three must either return word-for-word identical objects (and leave read-only operands unchanged, and the result must be valid and accepted by a follow-up add) or all three must refuse. Where they succeed, one operand is corrupted in a single field (residue = q_i / 2^64-1, foreign / other-level / key-level parms id, size 1 / 17, coeff_modulus_size or degree off, buffer length off by one, scale, correction factor, seed flag; plaintext coefficient = t, NTT residue = q_i, foreign id, wrong length; seed-compressed or foreign keys) and every form must refuse. non-trivial: forms agreed on a non-fresh operand state, or a corruption was exercised.",
+        rule: "operand states reached by random build sequences (multiply, square, relinearize, mod switch, rescale, representation changes, plaintext products) in BFV, BGV and CKKS; for each of 26 evaluator entry points the in-place, destination (pre-filled with an unrelated ciphertext / a scrambled plaintext of another length and scale) and value-returning forms are executed on the same operands: all three must either return word-for-word identical objects (and leave read-only operands unchanged, and the result must be valid and accepted by a follow-up add) or all three must refuse. Where they succeed, one operand is corrupted in a single field (residue = q_i / 2^64-1, foreign / other-level / key-level parms id, size 1 / 17, coeff_modulus_size or degree off, buffer length off by one, scale, correction factor, seed flag; plaintext coefficient = t, NTT residue = q_i, foreign id, wrong length; seed-compressed or foreign keys) and every form must refuse. non-trivial: forms agreed on a non-fresh operand state, or a corruption was exercised.",
         assumptions: vec!["any panic counts as a refusal (the library's convention)", "no-op requests (target level = current level) are excluded from the refusal clause because nothing is computed"],
         subs: vec![Sub::prop("forms_and_corruptions", 200_000, 1_500_000, 0.3, forms_case, oracle)],
     }
